@@ -42,6 +42,10 @@ CHECKS = {
          "Exploration: all 155 nestings of {for, user function, partial with data, contentFor/contentOf with data, block helper on a child context} x 4 binding patterns, and thousands of random let/probe/construct programs, render exactly what an environment-chain interpreter predicts for every probe before, inside and after each construct.",
          "Reference interpreter is the trusted base; single-iteration loops; functions defined where they are called; contentFor/Of in one scope.",
          "DESIGN.md §4 C09"),
+ "C05": ("fault injection at enumerated syntactic positions + rapid random programs with planted faults (shared all-constructs generator); instrumented failing helper with errors.Is, reference interpreter for reached/tolerated positions",
+         "Exploration: five fault kinds are planted at ~60 syntactic positions each and at random leaves of thousands of generated programs; whenever the instrumented helper was invoked the render must fail with an error that Is the original and with empty output, and - both directions - the render fails exactly when the reference interpreter says a fault is evaluated outside the tolerated positions.",
+         "Reference interpreter decides reachability (short-circuit, untaken branches, uncalled functions) and the tolerated positions.",
+         "DESIGN.md §4 C05"),
 }
 
 NOT_BUILT = "check not built yet in this session (see DESIGN.md §4 for its plan); will be claimed once its check is committed"
